@@ -1,5 +1,6 @@
 import CanopenModel.Sdo.Disturb
 import CanopenModel.Driver.C01
+import CanopenModel.Driver.C07Block
 namespace Canopen.Driver.C07
 open Canopen Canopen.Sdo Canopen.Spec Canopen.Driver.C01
 
@@ -42,6 +43,7 @@ def runAllX (at_ : Nat) (k : Kind) : Chan (DS × List Bytes) → List Xfer → L
     → `results | reqs | delivered | commits | illegal` -/
 def step (args : List String) : String :=
   match args with
+  | "bdist" :: _ => C07B.step args
   | ["dist", held, si, ex, es, cuts, at_, kind, xs] =>
     match parseHeld held, parseBool si, parseBool ex, parseBool es, parseNatList cuts, at_.toNat?, parseKind kind,
           (xs.splitOn ";").mapM parseXfer with
